@@ -311,7 +311,7 @@ func c13Eval(r *vrt.Run, c C13Case) c13Out {
 var c13Affinity = map[string][]int{
 	"TEXT": {gen.KText, gen.KXML, gen.KRecords, gen.KLatin1, gen.KLatin1}, "UTF": {gen.KUTF8}, "EXE": {gen.KExeX86, gen.KExeARM, gen.KExeELF, gen.KExeELF}, "MM": {gen.KWav, gen.KBmp},
 	"DNA": {gen.KDNA}, "PACK": {gen.KSmallAlpha, gen.KDNA, gen.KNumeric}, "RLT": {gen.KRuns, gen.KZeros}, "ZRLT": {gen.KRuns, gen.KZeros, gen.KSkewed},
-	"LZP": {gen.KRepeat, gen.KText}, "ROLZ": {gen.KText, gen.KRepeat}, "ROLZX": {gen.KText, gen.KDNA, gen.KExeX86},
+	"LZP": {gen.KRepeat, gen.KText, gen.KStretch}, "ROLZ": {gen.KText, gen.KRepeat, gen.KStretch}, "ROLZX": {gen.KText, gen.KDNA, gen.KExeX86, gen.KStretch},
 }
 
 func drawC13(t *rapid.T, maxLen int) C13Case {
@@ -445,6 +445,46 @@ func TestC13(t *testing.T) {
 		}
 		// a literal run longer than the 2^24 that the LZ length fields hold, at the END of the block (after the last
 		// match) and in its middle: compressible head (and tail), more than 16 MiB of random bytes
+		for _, tr := range []string{"ROLZ", "ROLZX", "LZ", "LZX", "LZP"} {
+			for _, p1 := range []int{0, 2, 3} {
+				idx++
+				if !r.Mine(idx) || r.Failed() || (p1 == 3 && !r.Thorough()) {
+					continue
+				}
+				n := []int{1 << 20, 0, 3 << 20, 5 << 20}[p1]
+				c := C13Case{Transform: tr, Direct: idx%2 == 0, Entropy: "NONE", DataType: -1, Jobs: 1, Data: gen.Recipe{Kind: gen.KStretch, Len: n, Seed: uint64(idx), P1: p1, P2: idx}}
+				o := c13Eval(r, c)
+				r.Label("directed:incompressible-stretch")
+				if o.msg != "" {
+					if r.Survey() {
+						r.Violation(t, "transform", c, "%s", o.msg)
+						continue
+					}
+					r.RecordFailure("transform", c, "", o.msg)
+					t.Fatalf("incompressible stretch family: %s on %s", o.msg, jsonOf(c))
+				}
+			}
+		}
+		// TEXT with a vocabulary far beyond the dictionary (2^19 entries: the dynamic part wraps around), both codec
+		// variants (selected by the entropy name)
+		for _, en := range []string{"NONE", "FPAQ"} {
+			idx++
+			if !r.Mine(idx) || r.Failed() {
+				continue
+			}
+			c := C13Case{Transform: "TEXT", Direct: idx%2 == 0, Entropy: en, DataType: -1, Jobs: 1,
+				Data: gen.Recipe{Kind: gen.KLatin1, Len: r.Pick(10, 24) << 20, Seed: uint64(idx), P1: 0, P2: 100}}
+			o := c13Eval(r, c)
+			r.Label("directed:huge-vocabulary")
+			if o.msg != "" {
+				if r.Survey() {
+					r.Violation(t, "transform", c, "%s", o.msg)
+					continue
+				}
+				r.RecordFailure("transform", c, "", o.msg)
+				t.Fatalf("huge vocabulary family: %s on %s", o.msg, jsonOf(c))
+			}
+		}
 		for i, tr := range []string{"LZ", "LZX", "LZP"} {
 			for k, rc := range []gen.Recipe{
 				{Kind: gen.KMixed, Len: 18000000, Seed: 3, P1: 58, P2: gen.KZeros, Kind2: gen.KRandom},
